@@ -283,6 +283,9 @@ func (session *ServerCommandSession) handleAnnounce(requestCtx nazahttp.HttpReqM
 	session.pubSession.InitWithSdp(sdpCtx)
 
 	if err = session.observer.OnNewRtspPubSession(session.pubSession); err != nil {
+		// refused by the observer (e.g. the stream already has an input): it was never attached, so the
+		// end of this connection must not be reported as the end of a publisher
+		session.pubSession = nil
 		return err
 	}
 
@@ -324,6 +327,7 @@ func (session *ServerCommandSession) handleDescribe(requestCtx nazahttp.HttpReqM
 	ok, rawSdp := session.observer.OnNewRtspSubSessionDescribe(session.subSession)
 	if !ok {
 		Log.Warnf("[%s] force close subSession.", session.uniqueKey)
+		session.subSession = nil // never attached: do not report it as a departing subscriber
 		return base.ErrRtspClosedByObserver
 	}
 
